@@ -349,7 +349,10 @@ def gen_output_spec(rng, zero_dim=False, with_func=True, big=0):
             "args": gen_args_spec(rng, with_func)}
 
 
-NAMES = ["run", "asdf", "2026-09-30T12:00:00", "ünï", "a b", "", "x" * 40, "data", "q\"uote"]
+# run names: ordinary ones, awkward ones, and names that also occur INSIDE a stored entry as keys or values ("metadata",
+# "data", "actions", "run_type", argument names) or that are prefixes / fragments of other names or of the JSON text itself
+NAMES = ["run", "asdf", "2026-09-30T12:00:00", "ünï", "a b", "", "x" * 40, "data", "q\"uote",
+         "metadata", "actions", "run_type", "ru", "run2", "eval", "NaN", "null", "{}", "\": {", "run\": {\"data"]
 
 
 def gen_history_spec(rng, length=None, zero_dim_rate=0.0, nofunc_rate=0.0):
